@@ -1,5 +1,5 @@
 import Eav.Model
-import Eav.Props.GenTie
+import Eav.Props.Tie.Init
 /-!
 # C08 — allow_tld / tld_check policy
 
